@@ -324,7 +324,15 @@ fn main() {
     }
 
     // 5. exp delivers the configured number of digits
-    for x in [Dec::new(1, 0), Dec::new(-1, 0), Dec::new(5, 1), Dec::new(-5, 1), Dec::new(10, 0), Dec::new(1, 30), Dec::new(-3, 0)] {
+    let mut exp_args: Vec<Dec> = vec![Dec::new(1, 0), Dec::new(-1, 0), Dec::new(5, 1), Dec::new(-5, 1), Dec::new(10, 0), Dec::new(1, 30), Dec::new(-3, 0)];
+    // arguments so small that e^x rounds to 1 at the configured precision, on both sides of every guard-digit count
+    // the series uses (the result must still have at most P digits), both signs
+    for d in [0i128, 1, 3, 4, 5, 6, 7, 12, 17, 18, 20, 100] {
+        for m in [1i64, -1, 5, -5] {
+            exp_args.push(Dec::new(m, p as i128 + d));
+        }
+    }
+    for x in exp_args {
         o.checks += 1;
         match guard(|| bd(&x).exp()) {
             Ok(r) => {
